@@ -287,6 +287,12 @@ pub fn text(c: &Case) -> String {
             pre = format!("Aa ::= {t} {base}\n");
             format!("Zz ::= {t} {}", cons_text(Some("Aa")))
         }
+        // another string type with the textually identical FROM constraint, written (and sorting) before the type under test
+        x if x.starts_with("decoy:") => {
+            let f = format!("(FROM ({}))", expr_text(&c.cons[0], &ops, None));
+            pre = format!("Aa ::= {} {f}\n", asn_name(&x[6..]));
+            format!("Zz ::= {t} {f}")
+        }
         "parent" => {
             pre = format!("P ::= {t} ({})\n", from(&c.cons[0], None));
             format!("A ::= P ({})", from(&c.cons[1], None))
@@ -499,6 +505,16 @@ impl Prop for C15 {
                     }
                 }
             }
+            // a neighbour of another string type carrying the textually identical constraint (generated first): the annotation
+            // of a type depends on its own type only
+            for decoy in ["IA5", "BMP", "UTF8"] {
+                if decoy == ty || (decoy == "IA5" && matches!(ty, "BMP" | "Universal")) {
+                    continue;
+                }
+                for e in e1.iter() {
+                    out.push(Case { ty: ty.into(), cons: vec![e.clone()], size: "none".into(), ctx: format!("decoy:{decoy}"), size_form: String::new() });
+                }
+            }
             // string values as a value constraint, without FROM: single strings and unions of strings (operands 0..3)
             for e in e1.iter().chain(e2.iter()) {
                 if e.operands.iter().all(|o| *o < 4) && e.ops.iter().all(|o| *o == 'U') {
@@ -542,6 +558,12 @@ impl Prop for C15 {
             for e in e1.iter().chain(e2.iter().filter(|e| e.operands[0] < 4 && e.operands[1] < 4)) {
                 for ctx in ["assign", "component"] {
                     out.push(Case { ty: ty.into(), cons: vec![e.clone()], size: "none".into(), ctx: ctx.into(), size_form: String::new() });
+                }
+            }
+            // ... next to a known-multiplier neighbour with the identical constraint: still no alphabet annotation
+            for decoy in ["IA5", "BMP"] {
+                for e in e1.iter() {
+                    out.push(Case { ty: ty.into(), cons: vec![e.clone()], size: "none".into(), ctx: format!("decoy:{decoy}"), size_form: String::new() });
                 }
             }
         }
@@ -694,7 +716,7 @@ impl Prop for C15 {
                 }
                 v
             }
-            x if x.starts_with("include-rev") => m.find("Zz").and_then(|i| i.attrs()).map(|a| vec![&a.rasn]).unwrap_or_default(),
+            x if x.starts_with("include-rev") || x.starts_with("decoy:") => m.find("Zz").and_then(|i| i.attrs()).map(|a| vec![&a.rasn]).unwrap_or_default(),
             _ => m.find("A").and_then(|i| i.attrs()).map(|a| vec![&a.rasn]).unwrap_or_default(),
         };
         if attrs.is_empty() {
